@@ -440,3 +440,68 @@ impl Ledger {
         (issues, classified)
     }
 }
+
+//------------ stored child certificates --------------------------------------
+
+/// A CA certificate found in a CA's own object store (`ca_objects`), i.e.
+/// as soon as the command that issued it has been processed - before any
+/// repository synchronisation.
+#[derive(Clone, Debug)]
+pub struct StoredChildCert {
+    pub name: String,
+    pub aki: String,
+    pub ski: String,
+    pub serial: String,
+    pub resources: ResourceSet,
+}
+
+/// Child certificates in the object store of `issuer` (all key sets).
+pub fn stored_child_certs(w: &World, issuer: &str) -> Vec<StoredChildCert> {
+    use base64::Engine;
+    use krill::commons::storage::Ident;
+    let mut res = vec![];
+    let Ok(kv) = w.krill.storage().open(krill::constants::CA_OBJECTS_NS)
+        else { return res };
+    let key_s = format!("{issuer}.json");
+    let Ok(key) = Ident::from_str(&key_s) else { return res };
+    let Ok(Some(v)) = kv.get::<serde_json::Value>(None, key) else { return res };
+    fn walk(v: &serde_json::Value, out: &mut Vec<(String, String)>) {
+        match v {
+            serde_json::Value::Object(m) => {
+                for (k, x) in m {
+                    if k == "published_objects" {
+                        if let Some(po) = x.as_object() {
+                            for (name, o) in po {
+                                if let Some(b) = o["base64"].as_str() {
+                                    out.push((name.clone(), b.to_string()));
+                                }
+                            }
+                        }
+                    } else {
+                        walk(x, out)
+                    }
+                }
+            }
+            serde_json::Value::Array(a) => for x in a { walk(x, out) },
+            _ => {}
+        }
+    }
+    let mut found = vec![];
+    walk(&v, &mut found);
+    for (name, b64) in found {
+        if !name.ends_with(".cer") { continue }
+        let Ok(bytes) = base64::engine::general_purpose::STANDARD.decode(&b64)
+            else { continue };
+        let Ok(cert) = rpki::repository::cert::Cert::decode(Bytes::from(bytes))
+            else { continue };
+        if !cert.is_ca() { continue }
+        let Some(aki) = cert.authority_key_identifier() else { continue };
+        let Ok(resources) = ResourceSet::try_from(&cert) else { continue };
+        res.push(StoredChildCert {
+            name, aki: aki.to_string(),
+            ski: cert.subject_key_identifier().to_string(),
+            serial: cert.serial_number().to_string(), resources,
+        });
+    }
+    res
+}
